@@ -222,6 +222,14 @@ example :
 
 /-! ## refresh -/
 
+/-- the source compares the cached and the new broker entry as whole structs (id, host, port, rack) — regenerated
+fact; comparing fewer fields (e.g. only the host) would leave a re-registered broker's group at its old address -/
+theorem update_compares_whole_broker : updateCompare = .whole := by decide
+
+/-- the source sends over a broker's own connection group exactly for ids ≥ 0 (0 is a valid broker id) -/
+theorem broker_conn_guard (id : Int) : usesBrokerConn id = decide (0 ≤ id) := by
+  unfold usesBrokerConn; congr 1
+
 /-- **update_follows**: after a successful refresh with answer `m` the cached answer is `m` (normalised), the
 layout is the one built from it, and the pool has a connection group for exactly the brokers of `m`, each
 dialling the host:port that `m` gives for its broker (`ConnsInv`; given it held for the previous layout) — so
@@ -231,7 +239,7 @@ theorem update_follows (s : PoolState) (m : MResponse) (h : ConnsInv s) :
     (update s (some m) false).layout = makeLayout (normalize m) ∧
     (update s (some m) false).err = false ∧
     ConnsInv (update s (some m) false) :=
-  ⟨rfl, rfl, rfl, Lemmas.Routing.update_connsInv s (some m) false h⟩
+  ⟨rfl, rfl, rfl, Lemmas.Routing.update_connsInv update_compares_whole_broker s (some m) false h⟩
 
 /-- a failed refresh never replaces a known cluster view -/
 theorem update_error_keeps_known (s : PoolState) (m : Option MResponse) (h : s.metadata.isSome = true) :
@@ -251,7 +259,7 @@ theorem conns_invariant (hist : List (Option MResponse × Bool)) :
   | nil => intro s hs; exact hs
   | cons e es ih =>
     intro s hs
-    exact ih _ (Lemmas.Routing.update_connsInv s e.1 e.2 hs)
+    exact ih _ (Lemmas.Routing.update_connsInv update_compares_whole_broker s e.1 e.2 hs)
 
 /-- after a leader moved (or a broker re-registered at another host/port) and the refresh delivered `m`, a
 produce/fetch request for partitions that `m` says are led by broker `b` is sent to `b` at the address `m` gives -/
@@ -266,7 +274,7 @@ theorem route_follows_update (a : ApiMethods) (s : PoolState) (m : MResponse) (r
     rw [hf.2.2.2 b, hf.2.1, hin]; rfl
   unfold route
   simp only [ha, brokerMethod, hb, hf.2.1, hl, KV.Routing.ofExcept, sendTarget, hc]
-  simp [hb0]
+  simp [usesBrokerConn, hb0]
 
 /-- a broker that keeps id and host but re-registers on another port gets a new group at the new port -/
 example :
@@ -331,7 +339,7 @@ theorem refresh_loop_survives_faults (es : List DEvent) (s s' : DState)
 theorem step_connsInv (guards : List ExitGuard) (s s' : DState) (e : DEvent)
     (hs : step guards s e = some s') (h : ConnsInv s.pool) : ConnsInv s'.pool := by
   cases e <;> simp only [step] at hs <;> split at hs <;> (try cases hs) <;>
-    first | exact h | exact Lemmas.Routing.update_connsInv _ _ _ h
+    first | exact h | exact Lemmas.Routing.update_connsInv update_compares_whole_broker _ _ _ h
 
 theorem run_connsInv (guards : List ExitGuard) (es : List DEvent) (s s' : DState)
     (hrun : run guards s es = some s') (h : ConnsInv s.pool) : ConnsInv s'.pool := by
@@ -444,7 +452,7 @@ theorem split_brokers_cover (a : ApiMethods) (c : Cluster) (conns : List (Int ×
   obtain ⟨hid, hk0⟩ := hwf k b hkb
   unfold route
   simp only [ha, brokerMethod, hf, KV.Routing.ofExcept, sendTarget, hid, lookupD, hkb, Option.getD]
-  simp [hk0, hinv k, hkb]
+  simp [usesBrokerConn, hk0, hinv k, hkb]
 
 end splits
 
